@@ -75,6 +75,10 @@ KANI_UNITS = {
         "harness_props": [(r"^alg::", ["C09"])],
         "what": "lattices twins (C01-C04 executable contract forms) on monomorphic instantiations; Conflict::merge; Max/Min over char, (); Point",
         "instantiation": "u8 / char / () payloads, nestings of depth <= 2; loop-free => complete for the instantiation",
+        "bounded": {r"^coll::": "collection operands of <= 2 elements (cheap representations + harness TinySet/TinyMap receivers), keys/elements over all u8",
+                    r"^coll2::vec": "vectors of length <= 2 over Max<u8>",
+                    r"^coll2::union_find": "item domain {0,1,2}, reachable states after <= 2 unions from empty, receiver TinyMap",
+                    r"^alg::": "carrier size N <= 3 (all operation tables), loops bounded by N^3: complete per N"},
     },
 }
 
@@ -111,13 +115,25 @@ KANI_UNITS["vk_mpsc"] = {
 # property -> list of (engine, unit, harness filters or None, tiers)
 PROPS = {
     "C01": [("verus", "lat_ord"), ("verus", "lat_wrap"), ("verus", "lat_pair"), ("verus", "lat_dom"),
-            ("kani", "vk_lat", ["::aci", "point_u8"], ("quick", "thorough"))],
+            ("kani", "vk_lat", ["::aci", "point_u8", "coll::set_aci"], ("quick",)),
+            ("kani", "vk_lat", ["::aci", "point_u8", "coll::set_aci", "coll::map_aci_small", "coll::map_comm_idem", "coll2::vec_union_aci",
+                                "coll2::union_find_merge"], ("thorough",))],
     "C02": [("verus", "lat_ord"), ("verus", "lat_wrap"), ("verus", "lat_pair"), ("verus", "lat_dom"),
-            ("kani", "vk_lat", ["::changed", "point_u8"], ("quick", "thorough"))],
+            ("kani", "vk_lat", ["::changed", "point_u8", "coll::set_merge", "coll::map_merge_option", "coll::map_merge_singleton",
+                                "coll2::vec_union_merge"], ("quick",)),
+            ("kani", "vk_lat", ["::changed", "point_u8", "coll::set_merge", "coll::map_merge", "coll2::vec_union_merge",
+                                "coll2::union_find_union", "coll2::union_find_merge"], ("thorough",))],
     "C03": [("verus", "lat_ord"), ("verus", "lat_wrap"), ("verus", "lat_pair"), ("verus", "lat_dom"),
-            ("kani", "vk_lat", ["::order", "::bot", "::top", "c03_withbot_unit_is_top", "point_u8"], ("quick", "thorough"))],
+            ("kani", "vk_lat", ["::order", "::bot", "::top", "c03_withbot_unit_is_top", "point_u8", "coll::set_cmp", "coll::set_bot_top_from",
+                                "coll::map_bot_top_from", "coll2::vec_union_cmp"], ("quick",)),
+            ("kani", "vk_lat", ["::order", "::bot", "::top", "c03_withbot_unit_is_top", "point_u8", "coll::set_cmp", "coll::set_bot_top_from",
+                                "coll::map_bot_top_from", "coll::map_cmp", "coll2::vec_union_cmp", "coll2::union_find_cmp"], ("thorough",))],
     "C04": [("verus", "lat_ord"), ("verus", "lat_wrap"), ("verus", "lat_pair"), ("verus", "lat_dom"),
-            ("kani", "vk_lat", ["::from", "::aci", "point_u8"], ("quick", "thorough"))],
+            ("kani", "vk_lat", ["::from", "::aci", "point_u8", "coll::set_merge", "coll::set_bot_top_from", "coll::map_merge_option",
+                                "coll::map_merge_singleton", "coll::map_bot_top_from", "coll2::vec_union_merge", "coll2::vec_union_cmp"], ("quick",)),
+            ("kani", "vk_lat", ["::from", "::aci", "point_u8", "coll::set_merge", "coll::set_bot_top_from", "coll::map_merge",
+                                "coll::map_bot_top_from", "coll2::vec_union_merge", "coll2::vec_union_cmp", "coll2::union_find_union",
+                                "coll2::union_find_merge"], ("thorough",))],
 }
 
 PROPS["C09"] = [
@@ -136,6 +152,8 @@ PROPS["C14"] = [("kani", "ov_sink", ["vk_harness"], ("quick", "thorough"))]
 # C16 is NOT registered: the vk_mpsc harness crate (kept for reference) exhausts memory -- a single `try_send` call on the verbatim
 # file (Rc<RefCell<Shared>>, VecDeque, SmallVec<[Waker;1]>, tokio error types) drives CBMC to 65 GB RSS in propositional reduction.
 
+PROPS["C13"] = [("kani", "ov_pipes", ["symmetric_hash_join"], ("quick", "thorough"))]
+
 LEVEL = {
-    "C01": "other", "C02": "other", "C03": "other", "C04": "other", "C09": "other", "C15": "other", "C11": "other", "C12": "other", "C14": "other",
+    "C01": "other", "C02": "other", "C03": "other", "C04": "other", "C09": "other", "C15": "other", "C11": "other", "C12": "other", "C14": "other", "C13": "other",
 }
